@@ -44,6 +44,22 @@ HISTORY = {
     'C15_C': 'missed at first; caught by the typed notation dispatch rule (a float holds decimal degrees)',
     'C17_D': 'missed at first; caught by the skip-count rule (node count of the sub-grid being stepped over)',
     'C18_D': 'missed at first; caught by the sign-string rule (DMSAngle takes the sign from the first character)',
+    # round 3 (ids E/F)
+    'C01_F': 'first only C09; caught by the state rule once id()-keyed caches counted as lossy',
+    'C03_F': 'first only C15; C03 now runs the wrapper value rules of its observe_at list',
+    'C04_E': 'UNDECIDED at first; caught by the generic conditioning probe (R-COND) with singular-point search',
+    'C05_F': 'missed at first; caught by the domain guards of vincinv (poles are inside the domain)',
+    'C07_E': 'UNDECIDED at first; caught by evaluating the wrappers at concrete epochs',
+    'C08_E': 'ANALYSIS-ERROR at first; caught after the magnitude regimes were evaluated for both signs',
+    'C10_F': 'UNDECIDED at first; caught once witnesses could assign values to opaque atoms shared by both forms',
+    'C12_E': 'ANALYSIS-ERROR at first; same mechanism as C08_E',
+    'C14_F': 'first only C09; caught by the state rule once mutable default arguments counted as state',
+    'C15_E': 'UNDECIDED at first; caught after plain values were compared with conditional values arm by arm',
+    'C15_F': 'first only C03; C15 now runs the formula rules of the conversions its closed chains rest on',
+    'C16_F': 'missed at first; caught by the angle-parameter rule on the two local-frame functions',
+    'C17_E': 'UNDECIDED at first; caught once one-sided file content counted as an independent input for witnesses',
+    'C17_F': 'missed at first; caught by the running-minimum rule',
+    'C18_E': 'missed at first; caught by the header-count block rule',
     'C08_C': 'patch re-based after the HP repairs; first UNDECIDED, caught after str(float) was modelled as a non-fixed-point rendering',
 }
 
